@@ -207,9 +207,17 @@ def routing_rule(check, P):
                  "tool_on", "tool_off", "power_on", "power_off", "set_distance_mode", "absolute_mode", "relative_mode"}
     n = 0
     for fn in [x for x in ast.walk(mod.tree) if isinstance(x, ast.FunctionDef)]:
+        # local names that stand for the builder (builder = self._g)
+        aliases = set()
+        for a in ast.walk(fn):
+            if isinstance(a, ast.Assign) and isinstance(a.value, ast.Attribute) and a.value.attr == "_g":
+                aliases |= {t.id for t in a.targets if isinstance(t, ast.Name)}
+            elif isinstance(a, ast.NamedExpr) and isinstance(a.value, ast.Attribute) and a.value.attr == "_g":
+                aliases.add(a.target.id)
         for c in ast.walk(fn):
-            if isinstance(c, ast.Call) and isinstance(c.func, ast.Attribute) and isinstance(c.func.value, ast.Attribute) \
-                    and c.func.value.attr == "_g" and c.func.attr in producers:
+            if isinstance(c, ast.Call) and isinstance(c.func, ast.Attribute) and c.func.attr in producers \
+                    and ((isinstance(c.func.value, ast.Attribute) and c.func.value.attr == "_g")
+                         or (isinstance(c.func.value, ast.Name) and c.func.value.id in aliases)):
                 if c.func.attr == "move":
                     check.ok("R1", f"{fn.name}: output through move()")
                     n += 1
